@@ -143,7 +143,7 @@ struct JSONUtils {
                                 offset += SizeT{4};
                                 offset2 = offset;
 
-                                if ((code >> 8U) != 0xD8U) {
+                                if ((code & 0xFC00U) != 0xD800U) {
                                     Unicode::ToUTF<Char_T>(code, stream);
                                     continue;
                                 }
